@@ -366,7 +366,7 @@ var tmpl = template.Must(template.New("type1").Funcs(template.FuncMap{
 	},
 }).Parse(`{{define "SectionA" -}}
 %!FontType1-1.1: {{.FontName}} {{.Version|C}}
-{{if not .CreationDate.IsZero}}%%CreationDate: {{.CreationDate.Format "2006-01-02 15:04:05 -0700 MST"}}
+{{if not .CreationDate.IsZero}}%%CreationDate: {{.CreationDate.Format "2006-01-02 15:04:05 -0700"}}
 {{end -}}
 10 dict begin
 /FontInfo 11 dict dup begin
